@@ -28,11 +28,23 @@ func ArgVectors(r *rand.Rand, n int) []*Args {
 			a.L = append(a.L, pick(r, strValues[1:]))
 		}
 		for _, k := range SpreadKeys {
-			switch r.Intn(4) {
+			switch r.Intn(10) {
 			case 0:
 				a.At[k] = pick(r, strValues)
 			case 1:
 				a.At[k] = r.Intn(2) == 0
+			case 2:
+				a.At[k] = map[string]any{"k": "pbool", "b": r.Intn(2) == 0}
+			case 3:
+				a.At[k] = map[string]any{"k": "pstring", "s": pick(r, strValues)}
+			case 4:
+				a.At[k] = map[string]any{"k": pick(r, []string{"nilpbool", "nilpstring"})}
+			case 5:
+				a.At[k] = map[string]any{"k": "kvsb", "s": pick(r, strValues), "b": r.Intn(2) == 0}
+			case 6:
+				a.At[k] = map[string]any{"k": "kvbb", "b": r.Intn(2) == 0, "b2": r.Intn(2) == 0}
+			case 7:
+				a.At[k] = map[string]any{"k": "fbool", "b": r.Intn(2) == 0}
 			}
 		}
 		return a
@@ -148,6 +160,36 @@ type result struct {
 	Trace []int  ` + "`json:\"trace\"`" + `
 }
 
+// convertSpread turns the JSON encodings of the non-JSON spread value kinds
+// into the Go values templ.RenderAttributes distinguishes.
+func convertSpread(at templ.Attributes) {
+	for k, v := range at {
+		m, ok := v.(map[string]any)
+		if !ok {
+			continue
+		}
+		b, _ := m["b"].(bool)
+		b2, _ := m["b2"].(bool)
+		s, _ := m["s"].(string)
+		switch m["k"] {
+		case "pbool":
+			at[k] = &b
+		case "pstring":
+			at[k] = &s
+		case "nilpbool":
+			at[k] = (*bool)(nil)
+		case "nilpstring":
+			at[k] = (*string)(nil)
+		case "kvsb":
+			at[k] = templ.KV(s, b)
+		case "kvbb":
+			at[k] = templ.KV(b, b2)
+		case "fbool":
+			at[k] = func() bool { return b }
+		}
+	}
+}
+
 func main() {
 	sc := bufio.NewScanner(os.Stdin)
 	sc.Buffer(make([]byte, 1<<20), 1<<26)
@@ -165,6 +207,7 @@ func main() {
 			r.Err = "unknown program " + j.P
 		} else {
 			trace = nil
+			convertSpread(j.A.At)
 			var buf bytes.Buffer
 			if err := f(j.A).Render(context.Background(), &buf); err != nil {
 				r.Err = "render error: " + err.Error()
